@@ -41,7 +41,43 @@ def run(ctx: Ctx) -> Collector:
     _outputs(ctx, c)
     _conn_error(ctx, c)
     _raw(ctx, c)
+    _local_call(ctx, c)
     return c
+
+
+LOCAL_SEND = "mosaik.proxies.LocalProxy.send"
+
+
+def _local_call(ctx: Ctx, c: Collector) -> None:
+    """In-process simulators: an exception that escapes from the simulator's method reaches the scheduler.  The handler
+    of the generator protocol (`except StopIteration: return stop.value`) ends in a normal return, so it may only
+    guard the driving of a generator (next / send) -- and the call that merely creates one -- never the call of a
+    plain method: a StopIteration escaping from that one would become the reply `None` ("no next step")."""
+    fi = ctx.prog.functions.get(LOCAL_SEND)
+    if fi is None:
+        raise AnalysisError(f"R11/local: {LOCAL_SEND} not found")
+    s = ctx.summ(LOCAL_SEND)
+    me = T.var(fi.params[0])
+    look = [e.term for e in s.of_kind("call") if e.term[1] == T.glob("getattr") and e.term[2][:1] == (("attr", me, "sim"),)]
+    calls = [e for e in s.of_kind("call") if e.term[1] in look]
+    if not look or not calls:
+        c.unk("local", LOCAL_SEND, "simulator method call", "the call of the simulator's method was not found", fi.loc)
+        return
+    pr = []
+    for e in calls:
+        isgen = call(T.glob("inspect.isgeneratorfunction"), e.term[1])
+        only_creates = any(T.guard_term(g) == isgen for g in e.guards)
+        for tid, role in e.tries:
+            if role != "body":
+                continue
+            for h in s.of_kind("test"):
+                if h.term[0] != "except" or (tid, "handler") not in h.tries:
+                    continue
+                inside = [x for x in s.events if (tid, "handler") in x.tries and x.idx > h.idx]
+                if any(x.kind == "return" for x in inside) and not any(x.kind == "raise" for x in inside) and not only_creates:
+                    pr.append(f"the simulator's method is called (line {e.lineno}) inside the try whose `except {T.show(h.term[1])}` ends in a normal return: an exception of that kind "
+                              "escaping from a plain method becomes a reply instead of aborting the run")
+    c.add("local", LOCAL_SEND, "exceptions of a plain simulator method are not caught by the generator-protocol handler", VIOLATED if pr else DISCHARGED, "; ".join(sorted(set(pr))), fi.loc)
 
 
 def _step(ctx: Ctx, c: Collector) -> None:
